@@ -40,12 +40,12 @@ theorem slot_as_bits_eq (o : SlotObj) (h1 : o.colourCode < 16) (h2 : o.dataType 
 theorem emb_from_bits_eq (bits : Bits) : EmbeddedSignalling.from_bits modelExt bits = ofI embObj (embDec bits) :=
   Transl.PduSmall.emb_from_bits_eq bits
 
-/-- `EmbeddedSignalling(colour_code, pi, lcss: int, emb_parity: int)` is `Integrity.embInit` for all natural arguments
-with a parity below 2^9 (a larger one makes `int2ba(…, length=9)` raise `OverflowError`, which `embInit` does not model;
-`from_bits` cannot produce one) -/
-theorem emb_init_eq (cc pv lc par : Nat) (hpar : par < 512) :
+/-- `EmbeddedSignalling(colour_code, pi, lcss: int, emb_parity: int)` is `Integrity.embInit` for all natural arguments,
+including a parity of 2^9 or more: `int2ba(…, length=9)` inside `as_bits()` raises `OverflowError` there, and so does
+`embInit` -/
+theorem emb_init_eq (cc pv lc par : Nat) :
     EmbeddedSignalling.init modelExt (cc : Int) (pv : Int) (lc : Int) (par : Int) = ofI embObj (embInit cc pv lc par) :=
-  Transl.PduSmall.emb_init_eq cc pv lc par hpar
+  Transl.PduSmall.emb_init_eq cc pv lc par
 
 /-- `ShortLinkControl.from_bits(bits)` is `Integrity.slcDec bits`, for every bit string of any length: opcode dispatch,
 activity ids, addresses, the CRC field as stored (regenerated least significant bit first when it is zero) and `crc_ok`
